@@ -35,7 +35,8 @@ package dns
 //@   assert at return 1 target == "" && result0 == "" && result1 == "" && result2 == internal.ErrMissingAddr
 //@   assert at return 2 target != "" && result0 == target && result1 == defaultPort && result2 == nil
 //@   assert at return 3 port == "" && result0 == "" && result1 == "" && result2 == internal.ErrEndsWithColon
-//@   assert at return 4 port != "" && result1 == port && result2 == nil && result0 != ""
+//@   assert at return 4 port != "" && result1 == port && result2 == nil && result0 != "" && result0 == host
+//@   assert at call SplitHostPort#1 arg0 == target
 //@   assert at return 5 result2 == nil && result0 == host && result1 == port
 //@   assert at return 6 result2 != nil && result0 == "" && result1 == ""
 //@   assert at call SplitHostPort#2 arg0 == target+":"+defaultPort
